@@ -16,7 +16,9 @@ CONSTANTS
   MaxAnte = 0
   MaxBlocks = 0
   MaxSets = 0
+  MaxBounds = 0
   MaxLen = 0
+  Defects = {}
 INVARIANT Thm_CodeIsP
 INVARIANT Thm_Bounds
 INVARIANT Thm_Monotone
